@@ -25,6 +25,14 @@ def vec(ctx, name, n):
     return v
 
 
+def cvec(ctx, values):
+    """Vector of constants (exact in symbolic mode, float64 in concrete mode)."""
+    v = np.empty(len(values), dtype=object if is_sym(ctx) else float)
+    for i, x in enumerate(values):
+        v[i] = ctx.const(x)
+    return v
+
+
 def eye(ctx, n, m=None):
     m = n if m is None else m
     E = np.empty((n, m), dtype=object if is_sym(ctx) else float)
